@@ -496,7 +496,8 @@ def gen_twin(r, o):
 
 # -- damaged URIs -------------------------------------------------------------------------
 
-BAD_CLASSES = ["no-scheme", "no-host", "fragment", "fragment-empty", "userinfo", "userinfo-empty", "port-non-numeric", "non-utf8"]
+BAD_CLASSES = ["no-scheme", "no-host", "fragment", "fragment-empty", "userinfo", "userinfo-empty", "port-non-numeric", "port-non-numeric", "non-utf8", "non-utf8", "port-range"]
+# "port-range" (> 65535) is not among the stated rejection classes: a URL error or acceptance are both fine, anything else is not
 BAD_PORTS = ["abc", "12a", "a12", "-1", "+80", "0x50", "１２", "١٢", "5683x", "56 83", "1e3", "5683.", "http"]
 BAD_UTF8 = ["%FF", "%ff", "%C3%28", "%E2%82", "%ED%A0%80", "%C0%AF", "%F5%80%80%80", "%80", "%FE", "%c3", "%F0%9F%98", "%E2%28%A1"]
 
@@ -553,6 +554,9 @@ def gen_bad(r):
     elif cls == "port-non-numeric":
         _, host, _ = ref.split_authority(authority)
         out = scheme + "://" + host + ":" + r.choice(BAD_PORTS) + path + q
+    elif cls == "port-range":
+        _, host, _ = ref.split_authority(authority)
+        out = scheme + "://" + host + ":" + r.choice(["65536", "99999", "4294967296", "065536", "18446744073709551616", str(r.randrange(65536, 10**6))]) + path + q
     else:  # non-utf8
         seq = r.choice(BAD_UTF8)
         where = r.choice(["path", "query", "host"] if hk in ("name", "name-pct") else ["path", "query"])
@@ -1088,7 +1092,7 @@ class Checker:
             obs = Obs(res)
             if obs.proxy is not None and refst == ("reject", "foreign-scheme"):
                 pass
-            elif cls in ("fragment-empty", "userinfo-empty") and not STRICT_EMPTY_COMPONENTS:
+            elif cls == "port-range" or (cls in ("fragment-empty", "userinfo-empty") and not STRICT_EMPTY_COMPONENTS):
                 rep.count(cls + "_accepted")
             else:
                 rep.violation("reject/%s-accepted" % cls, "text that is not an acceptable CoAP URI (%s) is accepted" % cls, {"uri": u, "class": cls, "observed": obs.as_dict(), "reference": list(refst)}, case)
